@@ -139,6 +139,18 @@ def run(ctx: Ctx):
                     ctx.violation({"check": "corruption-accepted", "n": n, "pos": i, "value": x,
                                    "region": "length" if i == 0 else "header" if i <= 10 else "checksum" if i >= len(blk) - 2 else "data",
                                    "what": f"block with byte {i} altered to {x:#x} was accepted as valid"})
+    # crafted blocks (TLC: SecsIBlockVec.Crafted): length byte lowered onto a self-consistent prefix
+    for v in r.tagged("CV"):
+        c = bytes(v["block"])
+        ncorr += 1
+        try:
+            res = SecsIBlock.decode(c)
+        except Exception:  # noqa: BLE001
+            res = None
+        if res is not None:
+            ctx.violation({"check": "corruption-accepted", "n": 60, "pos": 0, "value": c[0], "region": "length", "crafted_prefix": v["k"],
+                           "what": f"a block of 60 data bytes whose length byte was lowered to {c[0]} (its first {v['k']} data bytes are followed by "
+                                   f"their own checksum) was accepted as a valid block with {len(res.data)} data bytes"})
     # ---- interleaved reassembly through the real protocol (dispatch path)
     simrt.install()
     rng = random.Random(ctx.seed + 16)
